@@ -7,6 +7,8 @@ import (
 	"net/url"
 	"sort"
 	"strings"
+	"unicode"
+	"unicode/utf8"
 
 	"github.com/gookit/rux"
 )
@@ -27,6 +29,7 @@ func init() {
 	register(routeEngine{"route"})  // C01 C02 C06: well-formed tables, all option masks
 	register(routeEngine{"rcache"}) // C07 C14: caching routers, histories with repetition, twin comparison, key order
 	register(routeEngine{"total"})  // C13: malformed definitions and degenerate requests
+	register(routeEngine{"url"})    // C15: named routes, BuildURL round trip, name index
 }
 
 func (e routeEngine) Name() string         { return e.name }
@@ -103,6 +106,37 @@ func (e routeEngine) Corpus() []Case {
 			// F6: caching router without routes
 			{Ops: []string{"new 8 3 -", q(g, "/a/b"), sv(g, "/x"), "ckeys"}},
 		}
+	case "url":
+		kv := func(pairs ...string) string {
+			if len(pairs) == 0 {
+				return "-"
+			}
+			var out []string
+			for i := 0; i+1 < len(pairs); i += 2 {
+				out = append(out, hx(pairs[i])+"="+hx(pairs[i+1]))
+			}
+			return strings.Join(out, ",")
+		}
+		regn := func(id int, name, path string, api int) string {
+			return fmt.Sprintf("regn %d %s - %s %d", id, hx(name), hx(path), api)
+		}
+		bq := func(name, args string, style, expect int) string {
+			return fmt.Sprintf("buildq %s %s %d %d", hx(name), args, style, expect)
+		}
+		return []Case{
+			// F15: a value that looks like another placeholder must not be substituted again
+			{Ops: []string{"new 0 0 -", regn(1, "r", "/r/{a}/{b}", 0), bq("r", kv("{a}", "{b}", "{b}", "Z"), 0, 1), bq("r", kv("{b}", "Z", "{a}", "{b}"), 1, 1)}},
+			// regexes containing ':' ; query arguments ; all three argument styles
+			{Ops: []string{"new 0 0 -", regn(1, "it", "/items/{id:(?:\\d+)}", 0), regn(2, "lg", "/l/{lang:(?:en|fr)}/{page}", 1),
+				bq("it", kv("{id}", "42"), 0, 1), bq("lg", kv("{lang}", "fr", "{page}", "a b", "q", "x&y", "p", "é"), 0, 2), bq("lg", kv("{lang}", "en", "{page}", "%3F#"), 1, 2), bq("lg", kv("{lang}", "en", "{page}", "p", "z", "1"), 2, 2)}},
+			// the name index: the latest registration under a name wins, whichever API; renaming keeps other routes' names
+			{Ops: []string{"new 0 0 -", regn(1, "n", "/a/{x}", 0), regn(2, "n", "/b/{x}", 1), "getroute " + hx("n"), "rename 1 " + hx("other"), "getroute " + hx("n"), "getroute " + hx("other"),
+				bq("n", kv("{x}", "1"), 0, 2), regn(3, " n ", "/c/{x}", 2), "getroute " + hx("n"), bq("missing", "-", 0, -1), regn(4, "  ", "/d", 0), "getroute " + hx("")}},
+			// static named route, no arguments
+			{Ops: []string{"new 0 0 -", regn(1, "home", "/home", 0), bq("home", "-", 1, 1), bq("home", kv("q", "1"), 0, 1)}},
+			// K1 (known finding): the last value ends in white space or '/'
+			{Ops: []string{"new 0 0 -", regn(1, "u", "/u/{name}", 0), bq("u", kv("{name}", "é "), 0, 1)}, Tag: "k1"},
+		}
 	default: // total
 		return []Case{
 			{Ops: []string{"new 0 0 -", regOp(1, []string{"DEL"}, "/x", false), regOp(2, []string{"G"}, "/x", false), regOp(3, []string{"GET,POST"}, "/x", false), regOp(4, []string{"get", " post "}, "/y", false), regOp(5, []string{" "}, "/z", false), regOp(6, nil, "/w", true), q(g, "/y"), q(p, "/y")}},
@@ -171,40 +205,29 @@ type piece struct {
 func genPattern(r *Rand, id int, shared []string) genRoute {
 	gr := genRoute{id: id}
 	varN := 0
+	usedNames := map[string]bool{}
 	newVar := func() (string, *genVar) {
 		varN++
 		if r.Chance(1, 6) {
 			g := globalNames[r.Intn(len(globalNames))]
-			// global names may be used once per route
-			for _, lv := range gr.levels {
-				for _, p := range lv {
-					if p.v != nil && p.v.name == g.name {
-						goto plain
-					}
-				}
+			// variable names are distinct inside a route
+			if !usedNames[g.name] {
+				usedNames[g.name] = true
+				return "{" + g.name + "}", &genVar{g.name, g.vals, g.bad}
 			}
-			return "{" + g.name + "}", &genVar{g.name, g.vals, g.bad}
 		}
-	plain:
 		k := varKinds[r.Intn(len(varKinds))]
 		if r.Chance(2, 5) {
 			k = varKinds[0]
 		}
 		name := fmt.Sprintf("v%d%c", varN, 'a'+byte(r.Intn(3)))
-		if r.Chance(1, 8) { // a custom regex under the name of a global variable: the custom regex rules
+		if r.Chance(1, 8) && k.spec != "%s" { // a custom regex under the name of a global variable: the custom regex rules
 			gn := r.Pick([]string{"all", "any", "num"})
-			used := false
-			for _, lv := range gr.levels {
-				for _, p := range lv {
-					if p.v != nil && p.v.name == gn {
-						used = true
-					}
-				}
-			}
-			if !used && k.spec != "%s" {
+			if !usedNames[gn] {
 				name = gn
 			}
 		}
+		usedNames[name] = true
 		return "{" + fmt.Sprintf(k.spec, name) + "}", &genVar{name, k.vals, k.bad}
 	}
 	genSegs := func(n int, first bool) (string, []piece) {
@@ -330,6 +353,9 @@ func mutatePath(r *Rand, p string) string {
 func (e routeEngine) Gen(r *Rand, tier string) Case {
 	if e.name == "total" {
 		return e.genTotal(r, tier)
+	}
+	if e.name == "url" {
+		return e.genURL(r, tier)
 	}
 	mask := r.Intn(128) &^ 8
 	cap := 0
@@ -493,6 +519,7 @@ func (e routeEngine) genTotal(r *Rand, tier string) Case {
 /**************** implementation side ****************/
 
 type routeImpl struct {
+	byID     map[int]*rux.Route
 	r        *rux.Router
 	twin     *rux.Router // same table without caching (only when caching is on)
 	caching  bool
@@ -584,6 +611,11 @@ func newRouter(mask, cap int, icpt string, caching bool) *rux.Router {
 func (im *routeImpl) quick(r *rux.Router, m, p string) string {
 	route, ps, alm := r.QuickMatch(m, p)
 	if route != nil {
+		for id, p := range im.byID {
+			if p == route {
+				return fmt.Sprintf("route %d %s", id, fmtParams(ps))
+			}
+		}
 		return "route " + strings.TrimPrefix(route.Name(), "r") + " " + fmtParams(ps)
 	}
 	if len(alm) > 0 {
@@ -611,7 +643,7 @@ func guarded(f func() string) (res string) {
 }
 
 func (e routeEngine) Run(ops []string) (ans []string, oracle []string) {
-	im := &routeImpl{r: rux.New()}
+	im := &routeImpl{r: rux.New(), byID: map[int]*rux.Route{}}
 	for _, op := range ops {
 		f := strings.Fields(op)
 		var a string
@@ -627,6 +659,7 @@ func (e routeEngine) Run(ops []string) (ans []string, oracle []string) {
 					im.twin = newRouter(mask, cap, icpt, false)
 				}
 				im.accepted = 0
+				im.byID = map[int]*rux.Route{}
 				return "ok"
 			})
 		case "reg":
@@ -699,6 +732,163 @@ func (e routeEngine) Run(ops []string) (ans []string, oracle []string) {
 					oracle = append(oracle, fmt.Sprintf("C07 caching router answered %q, the same router without cache %q, for %s", a, t, op))
 				}
 			}
+		case "regn":
+			id := atoi(f[1])
+			name, path, api := mustUnhx(f[2]), mustUnhx(f[4]), atoi(f[5])
+			var methods []string
+			if f[3] != "-" {
+				for _, h := range strings.Split(f[3], ",") {
+					methods = append(methods, mustUnhx(h))
+				}
+			}
+			a = guarded(func() string {
+				var rt *rux.Route
+				switch api {
+				case 0:
+					rt = im.r.AddNamed(name, path, routeHandler(id, false), methods...)
+				case 1:
+					rt = rux.NewNamedRoute(name, path, routeHandler(id, false), methods...)
+					im.r.AddRoute(rt)
+				default:
+					rt = im.r.Add(path, routeHandler(id, false), methods...)
+					rt.NamedTo(name, im.r)
+				}
+				im.byID[id] = rt
+				return "ok " + hx(rt.Path())
+			})
+			if strings.HasPrefix(a, "panic") {
+				a = "unsupported-reject"
+			}
+		case "rename":
+			id, name := atoi(f[1]), mustUnhx(f[2])
+			a = guarded(func() string {
+				if rt := im.byID[id]; rt != nil {
+					rt.NamedTo(name, im.r)
+				}
+				return "ok"
+			})
+		case "getroute":
+			a = guarded(func() string {
+				rt := im.r.GetRoute(mustUnhx(f[1]))
+				if rt == nil {
+					return "none"
+				}
+				for id, p := range im.byID {
+					if p == rt {
+						return fmt.Sprint(id)
+					}
+				}
+				return "unknown-route"
+			})
+		case "buildq":
+			name, style, expect := mustUnhx(f[1]), atoi(f[3]), atoi(f[4])
+			var ks, vs []string
+			if f[2] != "-" {
+				for _, kv := range strings.Split(f[2], ",") {
+					p := strings.SplitN(kv, "=", 2)
+					ks = append(ks, mustUnhx(p[0]))
+					vs = append(vs, mustUnhx(p[1]))
+				}
+			}
+			var built string
+			a = guarded(func() string {
+				var u *url.URL
+				switch style {
+				case 0: // rux.M
+					m := rux.M{}
+					for i := range ks {
+						m[ks[i]] = vs[i]
+					}
+					u = im.r.BuildURL(name, m)
+				case 1: // key/value pairs (needs at least one pair)
+					if len(ks) == 0 {
+						u = im.r.BuildURL(name)
+					} else {
+						var args []interface{}
+						for i := range ks {
+							args = append(args, ks[i], vs[i])
+						}
+						u = im.r.BuildRequestURL(name, args...)
+					}
+				default: // builder with Params / Queries
+					b := rux.NewBuildRequestURL()
+					ps := rux.M{}
+					qs := url.Values{}
+					for i := range ks {
+						if strings.ContainsAny(ks[i], "{}") {
+							ps[ks[i]] = vs[i]
+						} else {
+							qs.Add(ks[i], vs[i])
+						}
+					}
+					u = im.r.BuildURL(name, b.Params(ps).Queries(qs))
+				}
+				built = u.Path
+				// query parameters as decoded pairs, sorted by key (stable)
+				q, _ := url.ParseQuery(u.RawQuery)
+				qk := make([]string, 0, len(q))
+				for k := range q {
+					qk = append(qk, k)
+				}
+				sort.Strings(qk)
+				var qkv []string
+				for _, k := range qk {
+					for _, v := range q[k] {
+						qkv = append(qkv, hx(k)+"="+hx(v))
+					}
+				}
+				qs := "-"
+				if len(qkv) > 0 {
+					qs = strings.Join(qkv, ",")
+				}
+				return hx(u.Path) + " " + qs + " " + im.quick(im.r, "GET", u.Path)
+			})
+			if strings.HasPrefix(a, "panic") {
+				a = "panic"
+			}
+			// C15 oracle: the built path is routed back to the same route with exactly the given values
+			if expect >= 0 && !strings.HasPrefix(a, "panic") {
+				want := map[string]string{}
+				for i := range ks {
+					if strings.ContainsAny(ks[i], "{}") {
+						want[strings.Trim(ks[i], "{}")] = vs[i]
+					}
+				}
+				route, ps, _ := im.r.QuickMatch("GET", built)
+				ok := route != nil && route == im.byID[expect] && len(ps) == len(want)
+				for k, v := range want {
+					if ps[k] != v {
+						ok = false
+					}
+				}
+				// second leg: through the textual URL and ServeHTTP
+				if ok {
+					w := httptest.NewRecorder()
+					if req, err := http.NewRequest("GET", (&url.URL{Path: built}).String(), nil); err == nil {
+						im.r.ServeHTTP(w, req)
+						if !strings.HasPrefix(w.Body.String(), fmt.Sprintf("R%d:", expect)) {
+							ok = false
+						}
+					}
+				}
+				if !ok {
+					shape := ""
+					if n := len(built); n > 1 {
+						last, _ := utf8.DecodeLastRuneInString(built)
+						if last == '/' || unicode.IsSpace(last) {
+							shape = " (K1 shape: the built path ends in white space or '/', which lookup normalisation removes)"
+						}
+					}
+					if shape == "" && len(want) >= 2 {
+						for _, v := range want {
+							if strings.Contains(v, "/") {
+								shape = " (K2 shape: several variables and a value containing '/': the path has more than one decomposition)"
+							}
+						}
+					}
+					oracle = append(oracle, fmt.Sprintf("C15 round trip%s: BuildURL(%q, %v=%v) gave path %q, which is routed to %s instead of route %d with these values", shape, name, ks, vs, built, im.quick(im.r, "GET", built), expect))
+				}
+			}
 		case "ckeys":
 			c := im.r.VerifCachedRoutes()
 			if c == nil {
@@ -712,4 +902,115 @@ func (e routeEngine) Run(ops []string) (ans []string, oracle []string) {
 		ans = append(ans, a)
 	}
 	return
+}
+
+
+// genURL: named routes without optional parts whose first literal segment is unique to the route (so the
+// named route is the only candidate for its built paths), values drawn from the variable's regex language.
+func (e routeEngine) genURL(r *Rand, tier string) Case {
+	mask := r.Intn(8) &^ 8
+	if r.Chance(1, 2) {
+		mask = 0
+	}
+	ops := []string{fmt.Sprintf("new %d 0 -", mask)}
+	n := r.Range(1, 5)
+	type named struct {
+		id   int
+		name string
+		g    genRoute
+	}
+	var routes []named
+	for i := 1; i <= n; i++ {
+		var g genRoute
+		for try := 0; try < 20; try++ {
+			g = genPattern(r, i, nil)
+			if len(g.levels) == 1 {
+				break
+			}
+		}
+		if len(g.levels) != 1 {
+			continue
+		}
+		// unique literal first segment
+		g.pattern = fmt.Sprintf("/n%d", i) + g.pattern
+		g.levels[0] = append([]piece{{lit: fmt.Sprintf("/n%d", i)}}, g.levels[0]...)
+		name := r.Pick([]string{"a", "b", "route", "x_y", "é", "n"})
+		if r.Chance(1, 2) {
+			name = fmt.Sprintf("r%d", i)
+		}
+		ops = append(ops, fmt.Sprintf("regn %d %s - %s %d", i, hx(name), hx(g.pattern), r.Intn(3)))
+		routes = append(routes, named{i, name, g})
+		if r.Chance(1, 6) {
+			other := routes[r.Intn(len(routes))]
+			nn := r.Pick([]string{"a", "b", "moved", " n "})
+			ops = append(ops, fmt.Sprintf("rename %d %s", other.id, hx(nn)))
+		}
+	}
+	if len(routes) == 0 {
+		return Case{Ops: ops, Tag: "url"}
+	}
+	// who owns which name now (mirror of the index, to know the expected route)
+	owner := map[string]int{}
+	for _, op := range ops[1:] {
+		f := strings.Fields(op)
+		switch f[0] {
+		case "regn":
+			if nm := strings.TrimSpace(mustUnhx(f[2])); nm != "" {
+				owner[nm] = atoi(f[1])
+			}
+		case "rename":
+			if nm := strings.TrimSpace(mustUnhx(f[2])); nm != "" {
+				owner[nm] = atoi(f[1])
+			}
+		}
+	}
+	names := make([]string, 0, len(owner))
+	for k := range owner {
+		names = append(names, k)
+	}
+	sort.Strings(names)
+	for i := r.Range(2, 8); i > 0; i-- {
+		if len(names) == 0 || r.Chance(1, 10) {
+			ops = append(ops, "getroute "+hx(r.Pick([]string{"a", "b", "n", "zz", ""})))
+			continue
+		}
+		nm := names[r.Intn(len(names))]
+		var g genRoute
+		for _, rt := range routes {
+			if rt.id == owner[nm] {
+				g = rt.g
+			}
+		}
+		var kvs []string
+		for _, p := range g.levels[0] {
+			if p.v != nil {
+				v := r.Pick(p.v.vals)
+				if v == "" { // `{all}` may be empty, which changes the shape of the path: keep it non-empty here
+					v = "z"
+				}
+				kvs = append(kvs, hx("{"+p.v.name+"}")+"="+hx(v))
+			}
+		}
+		for k := r.Intn(3); k > 0; k-- {
+			kvs = append(kvs, hx(r.Pick([]string{"q", "page", "a b", "é", "x&y"}))+"="+hx(r.Pick([]string{"1", "a b", "é", "x&y=z", "", "%"})))
+		}
+		r.Shuffle(len(kvs), func(i, j int) { kvs[i], kvs[j] = kvs[j], kvs[i] })
+		// a key must not repeat (map argument)
+		seen := map[string]bool{}
+		var uniq []string
+		for _, kv := range kvs {
+			k := strings.SplitN(kv, "=", 2)[0]
+			if !seen[k] {
+				seen[k] = true
+				uniq = append(uniq, kv)
+			}
+		}
+		args := "-"
+		if len(uniq) > 0 {
+			args = strings.Join(uniq, ",")
+		}
+		ops = append(ops, fmt.Sprintf("buildq %s %s %d %d", hx(nm), args, r.Intn(3), owner[nm]))
+		ops = append(ops, "getroute "+hx(nm))
+	}
+	return Case{Ops: ops, Tag: "url"}
 }
